@@ -536,6 +536,9 @@ func modeBuild(seed uint64, n int, out *sx.Out) {
 	defer os.RemoveAll(scratch)
 	os.Mkdir(scratch+"/d", 0o755)
 	os.WriteFile(scratch+"/f", nil, 0o644)
+	os.Symlink("d", scratch+"/ld") // a watch on a symbolic link is a watch on what it points to (stat, not lstat)
+	os.Symlink("f", scratch+"/lf")
+	os.Symlink("nowhere", scratch+"/lx") // dangling
 	accepted := 0
 	aliased := 0
 	var prevBuilt []byte
@@ -548,6 +551,11 @@ func modeBuild(seed uint64, n int, out *sx.Out) {
 			path := scratch + "/f"
 			if isDir {
 				path = scratch + "/d"
+			}
+			if r.Chance(1, 4) {
+				// through a symbolic link
+				path = scratch + sx.Pick(r, []string{"/ld", "/lf", "/lx"})
+				isDir = strings.HasSuffix(path, "/ld")
 			}
 			if r.Chance(1, 4) {
 				path = "/nonexistent/" + strings.Map(func(c rune) rune {
